@@ -42,9 +42,10 @@ ASSUMPTIONS = ["catalogue matrices are ground truth; cirq.unitary(op) per operat
                "total variation 1e-6 on exact distributions, 1e-6 on outcome-averaged density matrices",
                "callbacks given to the transformer primitives are the harness's own semantics-preserving ones",
                "optimize_for_target_gateset and RouteCQC are judged by C07"]
-MIN_EVAL = {"unitary-preserved": 400, "distribution-preserved": 60, "average-state-preserved": 40, "input-unmodified": 800,
-            "ignored-ops-untouched": 150, "moments-well-formed": 800, "subcircuits-untouched-without-deep": 40,
-            "gauge-unitary-preserved": 80, "sweep-unitary-preserved": 30, "pipeline-preserved": 30, "merge-not-across-ignored": 20}
+MIN_EVAL = {"unitary-preserved": 2000, "distribution-preserved": 400, "average-state-preserved": 300, "input-unmodified": 4000,
+            "ignored-ops-untouched": 800, "moments-well-formed": 4000, "subcircuits-untouched-without-deep": 200,
+            "gauge-unitary-preserved": 400, "sweep-unitary-preserved": 600, "pipeline-preserved": 80, "merge-not-across-ignored": 40,
+            "structure-as-documented": 300, "documented-rejection": 10}
 MUST_REACH = [
     "cirq/transformers/transformer_primitives.py:_map_operations_impl",
     "cirq/transformers/transformer_primitives.py:_merge_operations_impl",
@@ -85,17 +86,74 @@ MUST_REACH = [
 KNOWN_GREEDY = "C06:unroll-greedy-earliest-reorders-conflicting-ops"
 # mechanisms of findings observed on the unchanged tree; each is assigned only when an explained-by test holds
 K_DD_IGNORED = "C06:dynamical-decoupling-merges-pulled-pauli-into-ignored-op"
-K_DD_CRASH = "C06:dynamical-decoupling-crashes-on-stabilizer-op-that-cannot-act-on-a-tableau"
+K_DD_CRASH = "C06:dynamical-decoupling-crashes-pulling-paulis-through-an-op-with-stabilizer-effect(PauliString.after)"
 K_SORT_CRASH = "C06:insertion-sort-crashes-on-tagged-op(TaggedOperation._commutes_-drops-default)"
 K_KEY_ORDER = "C06:repeated-key-instance-order:"   # + transformer name
 K_EJECTZ_SYM = "C06:eject_z-crashes-on-parameterized-iswap-or-fsim(_is_swaplike-rounds-a-sympy-expression)"
 K_DEPHASE_KEYS = "C06:dephase_measurements-output-cannot-be-simulated(repeated-key-becomes-repeated-channel-record)"
-K_SQRT_CZ = "C06:sqrt-cz-gauge-picks-S-vs-S^-1-by-exact-equality(gateset-accepts-shifted-or-approximate-sqrt-cz)"
+K_DEPHASE_TAGGED = "C06:dephase_measurements-does-not-reject-a-tagged-classically-controlled-operation"
+K_SQRT_CZ = "C06:sqrt-cz-gauge-mishandles-gates-its-target-gateset-accepts(S-vs-S^-1-by-exact-equality,non-CZPowGate)"
+K_DEFER_EQUAL = "C06:defer_measurements-takes-mid-circuit-measurement-for-terminal-when-an-equal-operation-is-terminal"
+K_FRONTIER = "C06:unroll-greedy-frontier-ignores-measurement-key-dependencies"
+K_DEFER_UNSAT = "C06:defer_measurements-crashes-on-a-condition-no-record-satisfies(empty-SumOfProducts)"
+K_DEFER_BITMASK = "C06:defer_measurements-ignores-the-index-of-a-BitMaskKeyCondition"
+
+
+def _defer_condition_facts():
+    """facts about the current abstract program used to attribute a defer_measurements failure:
+    (some control is unsatisfiable by every record, some bitmask control names an instance other than the latest of a
+    repeated key)"""
+    import itertools
+
+    case = _S.get("current_case") or {}
+    items = case.get("items") or []
+    if X.has_block(items):
+        return False, False
+    unsat = indexed = False
+    before = []
+    for s_ in items:
+        if s_["t"] == "M":
+            before.append((s_["key"], len(s_["w"])))
+        elif s_["t"] == "C":
+            c = s_["cond"]
+            keys = {c["key"]} if "key" in c else {k for k, _ in c["keys"]}
+            slots = [(k, w) for k, w in before if k in keys]
+            if c["t"] == "bitmask" and c.get("index", -1) != -1 and len(slots) >= 2:
+                indexed = True
+            f = P.key_cond_fn(c)
+            width = sum(w for _, w in slots)
+            if width <= 8:
+                sat = False
+                for bits in itertools.product((0, 1), repeat=width):
+                    rec, i = [], 0
+                    for k, w in slots:
+                        rec.append((k, tuple(bits[i:i + w])))
+                        i += w
+                    try:
+                        if f(tuple(rec)):
+                            sat = True
+                            break
+                    except (KeyError, IndexError):
+                        pass
+                unsat = unsat or not sat
+    return unsat, indexed
+
+
+def _has_equal_measurements(circuit):
+    import cirq
+
+    ms = [op for op in circuit.all_operations() if cirq.is_measurement(op)]
+    return any(a == b for i, a in enumerate(ms) for b in ms[i + 1:])
 EXCEPTION_MECHANISMS = [
     # (transformer, exception type, message pattern, traceback pattern, mechanism key)
-    ("add_dynamical_decoupling", TypeError, r"Failed to act action on state argument", r"pauli_string\.py.*in after", K_DD_CRASH),
+    ("add_dynamical_decoupling", (TypeError, ValueError), r"Failed to act action on state argument|Clifford Gate can only be constructed",
+     r"pauli_string\.py.*in after", K_DD_CRASH),
     ("eject_z", TypeError, r".", r"in _is_swaplike", K_EJECTZ_SYM),
     ("drop_diagonal_before_measurement", TypeError, r".", r"in _is_swaplike", K_EJECTZ_SYM),
+    ("SqrtCZGaugeTransformer", ValueError, r"Can't symbolize non-CZPowGate", r"in _symbolize_as_cz_pow", K_SQRT_CZ),
+    ("defer_measurements", ValueError, r"Deferred measurement for key=.* not found", r"in defer", K_DEFER_EQUAL, lambda c: _has_equal_measurements(c)),
+    ("defer_measurements", ValueError, r"SumOfProducts can't be empty", r"in defer", K_DEFER_BITMASK, lambda c: _defer_condition_facts() == (False, True)),
+    ("defer_measurements", ValueError, r"SumOfProducts can't be empty", r"in defer", K_DEFER_UNSAT, lambda c: _defer_condition_facts()[0]),
     ("insertion_sort_transformer", TypeError, r"Failed to determine whether or not", r"raw_types\.py.*in _commutes_", K_SORT_CRASH),
 ]
 TOL = 1e-6
@@ -207,9 +265,10 @@ def _check_ignored(ctx, name, circ_in, out, deep, wit):
 def _check_subcircuits(ctx, name, circ_in, out, wit):
     import cirq
 
-    orig = [op.untagged for op in circ_in.all_operations() if isinstance(op.untagged, cirq.CircuitOperation)]
-    if not orig:
+    if not any(isinstance(op.untagged, cirq.CircuitOperation) for op in circ_in.all_operations()):
         return
+    # bodies of every sub-circuit of the input (a pass may legitimately expose a nested one or re-map its qubits)
+    orig = [op.untagged.circuit for op in LW.all_ops_deep(circ_in) if isinstance(op.untagged, cirq.CircuitOperation)]
     bad = []
     for op in out.all_operations():
         u = op.untagged
@@ -217,7 +276,7 @@ def _check_subcircuits(ctx, name, circ_in, out, wit):
             continue
         if any(str(t).startswith(CREATED_TAG_PREFIXES) for t in op.tags):
             continue
-        if not any(u == o for o in orig):
+        if not any(u.circuit == o for o in orig):
             bad.append(op)
     ctx.check(not bad, "subcircuits-untouched-without-deep", "C06:subcircuit-rewritten-without-deep:" + name,
               lambda: "a CircuitOperation in the output is not one of the input's (deep=False): %r" % (bad[:2],),
@@ -250,8 +309,9 @@ def call(ctx, ent, circ_in, variant, kw, wit, fn=None, extra_rejects=()):
         ctx.ok("no-undocumented-exception")
         tb_txt = "".join(traceback.format_exception(type(e), e, e.__traceback__))
         mech = "C06:exception:%s:%s@%s" % (name, type(e).__name__, where)
-        for nm, exc_t, pat_msg, pat_tb, key in EXCEPTION_MECHANISMS:
-            if nm == name and isinstance(e, exc_t) and re.search(pat_msg, str(e), re.S) and re.search(pat_tb, tb_txt, re.S):
+        for nm, exc_t, pat_msg, pat_tb, key, *pred in EXCEPTION_MECHANISMS:
+            if nm == name and isinstance(e, exc_t) and re.search(pat_msg, str(e), re.S) and re.search(pat_tb, tb_txt, re.S) \
+                    and (not pred or pred[0](circ_in)):
                 mech = key
         ctx.fail(mech, msg,
                  traceback="".join(traceback.format_exception(type(e), e, e.__traceback__))[-1500:], **wit)
@@ -311,6 +371,18 @@ def _explored(case, out, what):
     return cache[key]
 
 
+def _defer_bitmask_explains(case, got):
+    """explained-by: the observed distribution is that of the program with every bitmask condition reading the latest
+    instance (index -1) instead of the instance it names"""
+    items = []
+    for s_ in case["items"]:
+        if s_["t"] == "C" and s_["cond"]["t"] == "bitmask":
+            s_ = dict(s_, cond=dict(s_["cond"], index=-1))
+        items.append(s_)
+    alt = I.distribution(I.run(P.to_ref(items), case["dims"]))
+    return L.tv_distance(got, alt) <= 1e-6 or L.tv_distance(_sorted_instances(got), _sorted_instances(alt)) <= 1e-6
+
+
 def _sorted_instances(dist):
     out = {}
     for rec, p in dist.items():
@@ -333,6 +405,8 @@ def judge_distribution(ctx, case, name, out, wit, mech=None, want=None):
         ctx.event("explorer-over-budget")
         return None
     tv = L.tv_distance(got, want)
+    if tv > 1e-6 and mech is None and name == "defer_measurements" and _defer_condition_facts()[1] and _defer_bitmask_explains(case, got):
+        mech = K_DEFER_BITMASK
     if tv > 1e-6 and mech is None and L.tv_distance(_sorted_instances(got), _sorted_instances(want)) <= 1e-6:
         # explained-by: only the order of the instances recorded under a repeated key differs
         mech = K_KEY_ORDER + name
@@ -431,7 +505,8 @@ def build_registry():
         rejects=[(ValueError, r"k should be greater than or equal to 1")])
     # these treat a whole (unitary / negligible) CircuitOperation as one operation: nested ignored operations are only
     # required to survive together with their enclosing operation -> the ignored-op check looks at the top level
-    for nm in ("merge_k_qubit_unitaries", "merge_single_qubit_gates_to_phased_x_and_z", "merge_single_qubit_gates_to_phxz"):
+    for nm in ("merge_k_qubit_unitaries", "merge_single_qubit_gates_to_phased_x_and_z", "merge_single_qubit_gates_to_phxz",
+               "merge_single_qubit_moments_to_phxz"):
         R[nm].whole_ops = True
     add("drop_empty_moments", "U", T.drop_empty_moments, atol_kw=None)
     add("drop_negligible_operations", "U", T.drop_negligible_operations,
@@ -531,6 +606,18 @@ def public_transformer_names():
 
 def setup(ctx):
     X.ensure_specs()
+    # the worker keeps at most 40 violations per shard: store at most 3 witnesses per mechanism (the rest are counted as
+    # events) so that frequent known mechanisms cannot crowd out a new one
+    orig_fail, per_mech = ctx.fail, {}
+
+    def fail(mech, msg, **witness):
+        per_mech[mech] = per_mech.get(mech, 0) + 1
+        if per_mech[mech] <= 3:
+            orig_fail(mech, msg, **witness)
+        else:
+            ctx.event("more-witnesses:" + mech)
+
+    ctx.fail = fail
     _S["reg"] = build_registry()
     pub = public_transformer_names()
     _S["public"] = pub
@@ -557,6 +644,7 @@ def make_case(rng, items, n, kind, layout=None, empty_p=None, frozen=None):
     frozen = bool(rng.integers(2)) if frozen is None else frozen
     circuit = cirq.FrozenCircuit(moments) if frozen else cirq.Circuit(moments)
     case = {"items": items, "n": n, "dims": dims, "qubits": qubits, "layout": layout, "kind": kind, "circuit": circuit, "cache": {}}
+    _S["current_case"] = case
     if X.has_block(items):
         ref = B.flat_to_ref(B.flatten(items))
     else:
@@ -649,7 +737,9 @@ def _ref_dropped_terminal(items):
 def judge_R(ctx, case, ent, out, wit, variant):
     """rho=: outcome-averaged final density matrix, no records promised."""
     if ent.name == "dephase_measurements":
-        return judge_state(ctx, case, ent.name, out, wit)
+        # observed with the density-matrix simulator, the use the docstring names (the keyed dephasing channels record
+        # nothing there; the state-vector simulator refuses two channel records under one key)
+        return judge_state(ctx, case, ent.name, out, wit, dm=True)
     # drop_terminal_measurements: state before collapse, invert masks turned into X; measurements carrying an ignored
     # tag stay where they are
     if X.has_block(case["items"]):
@@ -747,6 +837,12 @@ def sec_measured(ctx, rng, case_no):
         if res is None:
             continue
         w2 = dict(wit, options=_optdesc(kw), context=variant)
+        if ent.name == "dephase_measurements" and has_ctrl and not ("tags" in variant and all(IG in s.get("tags", ()) for s in items if s["t"] == "C")):
+            # documented: ValueError when the circuit contains classical controls
+            only_tagged = all(s.get("tags") for s in items if s["t"] == "C")
+            ctx.check(False, "documented-rejection", K_DEPHASE_TAGGED if only_tagged else "C06:rejection-missing:dephase_measurements",
+                      "no ValueError although the circuit contains classically controlled operations", output=repr(res)[:2500], **w2)
+            continue
         if ent.rel == "R":
             judge_R(ctx, case, ent, res, w2, variant)
         else:
@@ -864,11 +960,18 @@ def _sqrt_cz_mech(case, name, circ, variant, rerun):
             return None
         touched = [0]
 
+        target = cirq.transformers.SqrtCZGaugeTransformer.target
+        exact = {0.5: np.diag([1, 1, 1, 1j]), -0.5: np.diag([1, 1, 1, -1j])}
+
         def fix(op):
             g = op.gate
-            if isinstance(g, cirq.CZPowGate) and not cirq.is_parameterized(g) and abs(g.exponent - 0.5) < 1e-6 and g != cirq.CZ ** 0.5:
-                touched[0] += 1
-                return (cirq.CZ ** 0.5).on(*op.qubits).with_tags(*op.tags)
+            if g is None or len(op.qubits) != 2 or op not in target or g == cirq.CZ ** 0.5 or g == cirq.CZ ** -0.5:
+                return op
+            u = cirq.unitary(op, None)
+            for e, m in exact.items():
+                if u is not None and L.phase_equal(u, m, 1e-6):
+                    touched[0] += 1
+                    return (cirq.CZ ** e).on(*op.qubits).with_tags(*op.tags)
             return op
 
         c2 = cirq.Circuit([cirq.Moment([fix(op) for op in m.operations]) for m in circ.moments])
@@ -1234,7 +1337,7 @@ def _unroll(ctx, rng, case, un, kw, label):
     tc = kw.get("tags_to_check", (TP.MAPPED_CIRCUIT_OP_TAG,))
     matching = [op for op in circ.all_operations()
                 if isinstance(op.untagged, cirq.CircuitOperation) and (tc is None or set(tc) & set(op.tags))]
-    left = [op for op in res.all_operations() if any(op == m and tuple(op.tags) == tuple(m.tags) for m in matching)]
+    left = [op for op in res.all_operations() if op.qubits and any(op is m for m in matching)]   # identity: an equal nested one may surface
     ctx.check(not left, "structure-as-documented", "C06:not-unrolled:" + un, lambda: "still present: %r" % (left[:1],), **wit)
     ok = _satisfies(case, res)
     mech = "C06:%s-changed:%s" % ("unitary" if case["kind"] == "unitary" else "distribution-or-state", un)
@@ -1243,6 +1346,12 @@ def _unroll(ctx, rng, case, un, kw, label):
             plain = TP.unroll_circuit_op(circ, **kw)
             if _satisfies(case, plain):
                 mech = KNOWN_GREEDY
+        except Exception:  # noqa
+            pass
+    if not ok and un == "unroll_circuit_op_greedy_frontier" and case["kind"] == "measured":
+        try:
+            if _satisfies(case, TP.unroll_circuit_op(circ, **kw)) and any(cirq.control_keys(op) for op in LW.all_ops_deep(circ)):
+                mech = K_FRONTIER
         except Exception:  # noqa
             pass
     mon = "unitary-preserved" if case["kind"] == "unitary" else "distribution-preserved"
@@ -1675,12 +1784,12 @@ def sec_special(ctx, rng, case_no):
 
 
 SECTIONS = [
-    ("unitary", sec_unitary, 400, 12000, 3.0),
-    ("measured", sec_measured, 300, 8000, 3.0),
-    ("deep", sec_deep, 300, 8000, 2.0),
-    ("gauge", sec_gauge, 300, 8000, 1.5),
-    ("primitives", sec_primitives, 300, 8000, 2.5),
-    ("sweep", sec_sweep, 300, 8000, 1.0),
-    ("pipeline", sec_pipeline, 300, 8000, 1.5),
-    ("special", sec_special, 600, 12000, 0.7),
+    ("unitary", sec_unitary, 340, 6000, 5.0),
+    ("measured", sec_measured, 150, 2600, 5.0),
+    ("deep", sec_deep, 250, 4000, 3.0),
+    ("gauge", sec_gauge, 260, 4500, 2.0),
+    ("primitives", sec_primitives, 240, 4000, 3.0),
+    ("sweep", sec_sweep, 260, 4000, 1.0),
+    ("pipeline", sec_pipeline, 240, 4000, 1.0),
+    ("special", sec_special, 450, 6000, 0.3),
 ]
